@@ -128,6 +128,21 @@ func nsToTime(ns *big.Int) (time.Time, bool) {
 func (fr *frame) compareBytes(a, b []value, eqOnly bool) int {
 	c := fr.ctx()
 	p := 0
+	if eqOnly {
+		// equality needs every byte equal: a concrete mismatch anywhere (or a length
+		// mismatch) decides it without looking at symbolic time bytes, also when the
+		// two sides are not aligned on a time group (denoms of different length).
+		if len(a) != len(b) {
+			return 1
+		}
+		for q := range a {
+			ux, okx := a[q].(uint8)
+			uy, oky := b[q].(uint8)
+			if okx && oky && ux != uy {
+				return 1
+			}
+		}
+	}
 	for p < len(a) && p < len(b) {
 		x, y := a[p], b[p]
 		ux, okx := x.(uint8)
